@@ -19,6 +19,14 @@ REQUIRED_PATHS = ["env", "params", "logDir", "steps[].dir", "steps[].command", "
                   "steps[].executor", "functions[].command", "functions[].params", "steps[].call.args", "steps[].env", "steps[].run"]
 
 
+REQUIRED_SHAPES = ["bare", "named-bare", "dq-start", "dq-mid", "dq-end", "named-dq", "multi", "multi-dq-last", "embedded", "sq", "indented", "dollar-paren"]
+BACKTICK_SHAPES = ["bare", "named-bare", "dq-start", "dq-mid", "dq-end", "dq-only", "named-dq", "named-dq-escaped", "multi", "multi-dq-last",
+                   "embedded", "sq", "indented", "two-commands"]
+# shapes that the evaluating entry point must execute, per field (the rest of the shapes is not command syntax there)
+LIVE_UNDER_LOAD = {"params": ["bare", "named-bare", "dq-start", "dq-mid", "dq-end", "dq-only", "named-dq", "named-dq-escaped", "multi-dq-last"],
+                   "env": BACKTICK_SHAPES, "logDir": BACKTICK_SHAPES}
+
+
 def run_harness(binp, cases, chk, what):
     p = subprocess.run([binp], input="\n".join(json.dumps(c) for c in cases) + "\n", stdout=subprocess.PIPE,
                        stderr=subprocess.PIPE, text=True, timeout=3000)
@@ -58,7 +66,14 @@ def run(chk, replay):
         c = json.load(open(replay))["case"]
         plants = [{"path": c["path"], "variant": c["variant"], "root": c.get("root", "")}]
         entries = [c["entry"]]
+        shapes = [c.get("shape", "bare")]
     else:
+        r = run_harness(binp, [{"id": "shapes", "mode": "shapes"}], chk, "shapes")
+        if r is None:
+            return
+        shapes = r[0].get("shapes") or []
+        chk.oblige("canary shapes cover the parameter syntax (bare, named, double-quoted start/middle/end, named quoted, several items) "
+                   "and embedded / quoted / indented / $(…) text", set(REQUIRED_SHAPES) <= set(shapes), str(shapes))
         r = run_harness(binp, [{"id": "fields", "mode": "fields", "repo": common.REPO}], chk, "fields")
         if r is None:
             return
@@ -72,15 +87,16 @@ def run(chk, replay):
     cases = []
     for e in entries:
         for p in plants:
-            cases.append({"id": "%s|%s|%s" % (e, p["path"], p["variant"]), "mode": "canary", "entry": e, "path": p["path"],
-                          "variant": p["variant"], "root": p.get("root", "")})
+            for sh in shapes:
+                cases.append({"id": "%s|%s|%s|%s" % (e, p["path"], p["variant"], sh), "mode": "canary", "entry": e, "path": p["path"],
+                              "variant": p["variant"], "root": p.get("root", ""), "shape": sh})
     # every random choice from the seeded PRNG: the order of the cases (effects must not depend on it)
     chk.rng.shuffle(cases)
     outs = run_harness(binp, cases, chk, "canary")
     if outs is None:
         return
     chk.oblige("harness-run:canary (every case answered)", len(outs) == len(cases), "%d/%d" % (len(outs), len(cases)))
-    observed, outcomes = {}, {}
+    observed, outcomes, live = {}, {}, {}
     byid = {c["id"]: c for c in cases}
     for o in outs:
         c = byid[o["id"]]
@@ -92,12 +108,14 @@ def run(chk, replay):
             kinds.add("setenv")
         observed.setdefault((c["entry"], c["path"], c["root"]), set()).update(kinds)
         outcomes[o.get("outcome", "?").split(":")[0]] = outcomes.get(o.get("outcome", "?").split(":")[0], 0) + 1
-        chk.nontrivial.add((c["entry"], c["path"], c["variant"]))
+        chk.nontrivial.add((c["entry"], c["path"], c["variant"], c.get("shape")))
+        if c["entry"] == "Load" and kinds:
+            live.setdefault(c["path"], set()).add(c.get("shape"))
         # ---- the property itself on the implementation
         if c["entry"] in NON_EVAL:
             if o.get("fired"):
                 chk.violation("C19:command-executed-without-eval:" + c["path"],
-                              "a command planted in `%s` was executed by %s (non-evaluating)" % (c["path"], c["entry"]), c)
+                              "a command planted in `%s` (shape %s: %s) was executed by %s (non-evaluating)" % (c["path"], c.get("shape"), o.get("text", "")[:80], c["entry"]), c)
             if o.get("envdiff"):
                 chk.violation("C19:environment-changed-without-eval:" + c["path"],
                               "loading through %s (non-evaluating) changed the process environment %s (canary in `%s`)" % (c["entry"], o["envdiff"][:4], c["path"]), c)
@@ -110,6 +128,10 @@ def run(chk, replay):
                     k |= v
             chk.oblige("positive-control: dag.Load evaluates `%s` (command runs%s)" % (path, "" if path == "logDir" else ", variables exported"),
                        k == ({"exec"} if path == "logDir" else {"exec", "setenv"}), str(k))
+        # every shape is live: under the evaluating entry point it does fire where the syntax of the field evaluates it
+        for path, need in LIVE_UNDER_LOAD.items():
+            miss = sorted(set(need) - live.get(path, set()))
+            chk.oblige("positive-control: under dag.Load the canary shapes %s fire in `%s`" % (",".join(need), path), not miss, "not firing: %s" % miss)
     # ---- correspondence: observed (entry, field) matrix = model reach
     dis = 0
     for (e, p, root), kinds in sorted(observed.items()):
@@ -125,10 +147,13 @@ def run(chk, replay):
     chk.disagreements_checked = chk.disagreements
     if dis == 0:
         chk.oblige("correspondence:effects (observed (entry, field) effect matrix = model reach, %d cells)" % len(observed), True)
-    chk.stats = {"plants": len(plants), "entries": entries, "cases": len(cases), "load_outcomes": outcomes,
+    chk.stats = {"plants": len(plants), "shapes": shapes, "live_under_load": {k: sorted(v) for k, v in sorted(live.items())},
+                 "entries": entries, "cases": len(cases), "load_outcomes": outcomes,
                  "cells_with_effect": sorted("%s:%s=%s" % (e, p, ",".join(sorted(k))) for (e, p, _), k in observed.items() if k)}
     chk.rule = ("every string-valued / any-typed field of definition.go (enumerated by parsing the file, so a new field is planted "
-                "automatically; any-typed fields as string, list, map, list-of-maps, executor as {type, config}) x a back-tick `touch <canary>` "
-                "plus ${VERIF_CANARY_VAR} x entry points LoadYAML, LoadMetadata, LoadWithoutEval, DAGStore.UpdateSpec/GetDetails/List, and "
-                "Load as positive control; non-trivial = distinct (entry, path, variant)")
+                "automatically; any-typed fields as string, list, map, list-of-maps, executor as {type, config}) x %d lexical shapes of the "
+                "canary text (bare back-tick `touch <canary>`, name=value, double-quoted with the command at start / middle / end, named quoted, "
+                "escaped quotes, several items, embedded in text, single-quoted, indented, $(…), two commands; each with ${VERIF_CANARY_VAR}) "
+                "x entry points LoadYAML, LoadMetadata, LoadWithoutEval, DAGStore.UpdateSpec/GetDetails/List, and "
+                "Load as positive control; non-trivial = distinct (entry, path, variant, shape)" % len(shapes))
     chk.samples = [o for o in outs if o.get("fired") or o.get("envdiff")][:4] + outs[:2]
